@@ -26,23 +26,23 @@ Lemma pow10n_pos fp : 0 < pow10n fp.
 Proof. unfold pow10n. apply Z.pow_pos_nonneg; lia. Qed.
 
 (* ---- the three forms, side conditions as propositions ---- *)
-Lemma okb_clock fr tr hs ms ss fs : texpr_okb fr tr (TClock hs ms ss fs) = true ->
+Lemma okb_clock fr tr hs ms ss fs : texpr_okb0 fr tr (TClock hs ms ss fs) = true ->
   (digits hs /\ hs <> [] /\ dval hs <= max_int64) /\ (digits ms /\ ms <> [] /\ dval ms <= max_int64) /\
   (digits ss /\ ss <> [] /\ dval ss <= max_int64) /\ digits fs /\ (length fs <= 3)%nat /\ dval fs <= max_int64.
 Proof.
-  cbn [texpr_okb]. unfold digitsb. intros H. rewrite !andb_true_iff in H.
+  cbn [texpr_okb0]. unfold digitsb. intros H. rewrite !andb_true_iff in H.
   destruct H as [[[[[Hh Hm] Hs] Hf] Hl] Hv].
   repeat split; try (apply field_ok_spec; assumption); try assumption.
   - apply Nat.leb_le. exact Hl.
   - apply Z.leb_le. exact Hv.
 Qed.
 
-Lemma okb_clock_frames fr tr hs ms ss fds : texpr_okb fr tr (TClockFrames hs ms ss fds) = true ->
+Lemma okb_clock_frames fr tr hs ms ss fds : texpr_okb0 fr tr (TClockFrames hs ms ss fds) = true ->
   (digits hs /\ hs <> [] /\ dval hs <= max_int64) /\ (digits ms /\ ms <> [] /\ dval ms <= max_int64) /\
   (digits ss /\ ss <> [] /\ dval ss <= max_int64) /\ digits fds /\ fds <> [] /\ dval fds < 2 ^ 53 /\
   0 < fr < 2 ^ 53 /\ dval fds * second_ns < 2 ^ 49 * fr.
 Proof.
-  cbn [texpr_okb]. unfold digitsb, two53, two49. intros H. rewrite !andb_true_iff in H.
+  cbn [texpr_okb0]. unfold digitsb, two53, two49. intros H. rewrite !andb_true_iff in H.
   destruct H as [[[[[[[[Hh Hm] Hs] Hf] Hn] Hv] Hfr0] Hfr1] Hb].
   apply Z.ltb_lt in Hv. apply Z.ltb_lt in Hfr0. apply Z.ltb_lt in Hfr1. apply Z.ltb_lt in Hb.
   repeat split; try (apply field_ok_spec; assumption); try assumption.
@@ -63,7 +63,7 @@ Proof.
     apply Z.ltb_lt in Ha. apply Z.ltb_lt in Hb. apply Z.ltb_lt in Hc. split; [split|]; assumption.
 Qed.
 
-Lemma okb_offset fr tr ip fp m : texpr_okb fr tr (TOffset ip fp m) = true ->
+Lemma okb_offset fr tr ip fp m : texpr_okb0 fr tr (TOffset ip fp m) = true ->
   digits ip /\ digits fp /\ ip <> [] /\ 0 <= dec_mant ip fp < 2 ^ 53 /\ (length fp <= 22)%nat /\
   match m with
   | Mf => rate_cond (dec_mant ip fp) fp fr
@@ -71,7 +71,7 @@ Lemma okb_offset fr tr ip fp m : texpr_okb fr tr (TOffset ip fp m) = true ->
   | _ => dec_mant ip fp * timebase m < 2 ^ 49 * pow10n fp
   end.
 Proof.
-  cbn [texpr_okb]. cbv zeta. unfold digitsb. intros H. rewrite !andb_true_iff in H.
+  cbn [texpr_okb0]. cbv zeta. unfold digitsb. intros H. rewrite !andb_true_iff in H.
   destruct H as [[[[[Hi Hf] Hn] Hv] Hl] Hm].
   apply Z.ltb_lt in Hv. unfold two53 in Hv. pose proof (dec_mant_nonneg ip fp) as H0.
   split; [exact Hi|]. split; [exact Hf|]. split; [apply negb_null_ne; exact Hn|]. split; [lia|].
@@ -83,7 +83,7 @@ Qed.
 Lemma two53_le_max z : z < 2 ^ 53 -> z <= max_int64.
 Proof. unfold max_int64. lia. Qed.
 
-Lemma texpr_time_some fr tr e : texpr_okb fr tr e = true ->
+Lemma texpr_time_some0 fr tr e : texpr_okb0 fr tr e = true ->
   ttml_time (texpr_str e) fr tr = Some (texpr_time fr tr e).
 Proof.
   intros Hok. destruct e as [hs ms ss fs | hs ms ss fds | ip fp m].
@@ -112,10 +112,10 @@ Proof.
         assert (E : (0 <? tr) = true) by (apply Z.ltb_lt; lia). rewrite E. reflexivity.
 Qed.
 
-Theorem texpr_unmarshal : forall fr tr e, texpr_okb fr tr e = true ->
+Theorem texpr_unmarshal0 : forall fr tr e, texpr_okb0 fr tr e = true ->
   exists d, ttml_unmarshal (texpr_str e) = Some d /\ ttml_duration d fr tr = texpr_time fr tr e.
 Proof.
-  intros fr tr e Hok. pose proof (texpr_time_some fr tr e Hok) as Ht. unfold ttml_time in Ht.
+  intros fr tr e Hok. pose proof (texpr_time_some0 fr tr e Hok) as Ht. unfold ttml_time in Ht.
   destruct (ttml_unmarshal (texpr_str e)) as [d|]; [|discriminate Ht].
   exists d. split; [reflexivity|]. injection Ht as Ht. exact Ht.
 Qed.
@@ -140,7 +140,7 @@ Proof.
   - replace ((h + r) * d - (h * d + n)) with (r * d - n) by ring. exact H2.
 Qed.
 
-Theorem texpr_denotes : forall fr tr e, texpr_okb fr tr e = true ->
+Theorem texpr_denotes0 : forall fr tr e, texpr_okb0 fr tr e = true ->
   denotes_instant (texpr_time fr tr e) (fst (texpr_exact fr tr e)) (snd (texpr_exact fr tr e)).
 Proof.
   intros fr tr e Hok. destruct e as [hs ms ss fs | hs ms ss fds | ip fp m].
@@ -204,6 +204,17 @@ Proof.
   - apply (frac_close r gn gd xn xd); assumption.
 Qed.
 
-Print Assumptions texpr_unmarshal.
-Print Assumptions texpr_denotes.
+Print Assumptions texpr_unmarshal0.
+Print Assumptions texpr_denotes0.
 Print Assumptions denotes_same_instant.
+
+(* ---- with the int64 bound of [texpr_okb] ---- *)
+Lemma texpr_okb_parts fr tr e : texpr_okb fr tr e = true -> texpr_okb0 fr tr e = true /\ (texpr_time fr tr e <= max_int64)%Z.
+Proof. unfold texpr_okb. intros H. apply andb_true_iff in H. destruct H as [H0 H1]. split; [exact H0 | apply Z.leb_le; exact H1]. Qed.
+Theorem texpr_unmarshal : forall fr tr e, texpr_okb fr tr e = true ->
+  exists d, ttml_unmarshal (texpr_str e) = Some d /\ ttml_duration d fr tr = texpr_time fr tr e.
+Proof. intros fr tr e H. apply texpr_unmarshal0. exact (proj1 (texpr_okb_parts fr tr e H)). Qed.
+Theorem texpr_denotes : forall fr tr e, texpr_okb fr tr e = true ->
+  denotes_instant (texpr_time fr tr e) (fst (texpr_exact fr tr e)) (snd (texpr_exact fr tr e)).
+Proof. intros fr tr e H. apply texpr_denotes0. exact (proj1 (texpr_okb_parts fr tr e H)). Qed.
+Print Assumptions texpr_unmarshal.
